@@ -1,7 +1,7 @@
 """
 tools/c20.py — the C20 check: (1) regenerate the feature-gate table from the working tree and let the
 Lean kernel re-check `Jp.C20.all_subsets_build`; (2) correspondence: `cargo check --lib
---no-default-features --features <S>` on the working tree for ALL 256 subsets, compared with the
+--no-default-features --features <S>` on the working tree for ALL 2^n subsets of the declared features (256 on the pinned tree), compared with the
 model's verdict per subset; (3) second half: the core operations (parse, token escaping, tokenisation,
 slicing, prefix/suffix) through a harness built with all default features off (no_std + alloc) and
 through the default build, on the same lines, both compared with the Lean model.
@@ -13,7 +13,7 @@ REPO = os.environ.get("VERIF_REPO", "/repo")
 HARNESS = os.path.join(VERIF, "harness")
 CORE = os.path.join(VERIF, "harness-core")
 LEAN = os.path.join(VERIF, "lean")
-FEATS = ["std", "serde", "json", "toml", "assign", "resolve", "delete", "miette"]
+FEATS = ["std", "serde", "json", "toml", "assign", "resolve", "delete", "miette"]   # replaced in run() by what Cargo.toml declares now
 ENV = dict(os.environ, CARGO_NET_OFFLINE="true")
 WORKERS = 8
 
@@ -115,15 +115,22 @@ def run(tier, seed, replay, proof_phase, write_replay, log):
     violations = []
     sys.path.insert(0, os.path.join(VERIF, "tools"))
     import featgen
+    T = featgen.build_table(REPO)
+    FEATS[:] = T["featnames"]
+    nsub = 2 ** len(FEATS)
+    if FEATS != featgen.KNOWN_FEATS:
+        log(f"C20: Cargo.toml now declares the features {FEATS} ({nsub} subsets)")
     if replay:
         rp = json.load(open(replay))
-        masks = [rp["mask"]] if "mask" in rp else list(range(256))
+        if rp.get("features") is not None and "mask" in rp:
+            masks = [sum(1 << FEATS.index(f) for f in rp["features"] if f in FEATS)]
+        else:
+            masks = [rp["mask"]] if "mask" in rp else list(range(nsub))
     else:
-        masks = list(range(256))
+        masks = list(range(nsub))
     log("C20: regenerate Jp/Gen/Features.lean from the working tree; lake build Jp.Props.C20")
     proof = proof_phase(prop, tier) if not replay else dict(obligations=0, discharged=0, failures=[], axioms={}, checker_cmd="")
-    T = featgen.build_table(REPO)
-    model = {m: featgen.verdict(T, m) for m in range(256)}
+    model = {m: featgen.verdict(T, m) for m in range(nsub)}
     model_bad = {m: v[1] for m, v in model.items() if v[1]}
     log(f"C20: table rows={len(T['table'])}; model says {len(model_bad)} subsets have an unsatisfied reference; proof failures={len(proof['failures'])}")
     log(f"C20: cargo check over {len(masks)} feature subsets ({WORKERS} workers)")
@@ -161,7 +168,7 @@ def run(tier, seed, replay, proof_phase, write_replay, log):
             theorem="Jp.C20.all_subsets_build", mask=m, model_unsatisfied=[list(b) for b in model_bad.get(m, [])] if m is not None else [],
             proof_failures=proof["failures"], no_failing_input_found=True,
             std_gated_behavioural_regions=[list(x) for x in std_behavioural],
-            note="cargo check accepts all 256 subsets; the generated table has a live reference the model cannot satisfy, or a region selected by the `std` feature that is not an Error impl (theorem std_gates_are_behaviour_neutral); the core-operations comparison below searches for a behavioural difference"))
+            note="cargo check accepts all subsets; the generated table has a live reference the model cannot satisfy, or a region selected by the `std` feature that is not an Error impl (theorem std_gates_are_behaviour_neutral); the core-operations comparison below searches for a behavioural difference"))
         violations.append((path, " no-failing-input-found"))
     wall = time.time() - t0
     if not replay:
@@ -173,7 +180,7 @@ def run(tier, seed, replay, proof_phase, write_replay, log):
                     "translator tools/featgen.py (a comment/string/brace-aware scanner of #[cfg] regions and references: an abstraction of rustc's name resolution), validated by the exhaustive cargo check sweep",
                     "cargo/rustc themselves for the sweep"],
                 evaluations=len(masks) + nlines, distinct_nontrivial=len(masks),
-                rule="all 256 subsets of the eight real features (every subset distinct and non-trivial) + core operation lines through the no-default-features and the default build",
+                rule=f"all {nsub} subsets of the {len(FEATS)} features Cargo.toml declares ({', '.join(FEATS)}; every subset distinct and non-trivial) + core operation lines through the no-default-features and the default build",
                 samples=[dict(mask=m, features=[f for i, f in enumerate(FEATS) if m >> i & 1], cargo_ok=res[m][0], model_ok=m not in model_bad) for m in masks[:3] + masks[-2:]],
                 exhaustive=True, programs=len(masks), disagreements_checked=len(disagreements),
                 traces_validated_against_impl=len(masks),
